@@ -33,7 +33,7 @@ ANCHORS = [
     "acnportal.acndata.utils:parse_dates",
 ]
 REQUIRED = ["interleaved_scenarios", "scenarios_judged", "multi_page_scenarios", "empty_page_scenarios", "zero_document_scenarios", "timeseries_scenarios",
-            "time_filter_scenarios", "date_fields_checked", "timeseries_timestamps_checked", "timeseries_straddling_offset_change", "chains_of_over_1000_pages", "meta_block:small", "meta_block:absent", "meta_block:zero", "round_trips", "tzinfo:zoneinfo", "zoneinfo_fold_1_with_microseconds", "invalid_site_rejections",
+            "time_filter_scenarios", "date_fields_checked", "timeseries_timestamps_checked", "timeseries_straddling_offset_change", "chains_of_over_1000_pages", "meta_block:small", "meta_block:absent", "meta_block:zero", "round_trips", "tzinfo:zoneinfo", "zoneinfo_fold_1_with_microseconds", "invalid_site_rejections", "calls_leaving_default_options_unmentioned",
             "regime:dst-transition-instant"]
 BUDGET_S = {"quick": 200, "thorough": 2400}
 ZONES = ["America/Los_Angeles", "America/New_York", "Europe/London", "Asia/Kolkata", "Australia/Sydney", "UTC",
@@ -123,8 +123,8 @@ def _run_paging(case, obs):
     hrefs = []
     orig_get = fake.get
 
-    def get(url, auth=None, **kw):
-        r = orig_get(url, auth=auth, **kw)
+    def get(url, *a_, **kw):
+        r = orig_get(url, *a_, **kw)
         hrefs.append(r.json()["_links"].get("next", {}).get("href"))
         return r
 
@@ -139,10 +139,16 @@ def _run_paging(case, obs):
         client = dc.DataClient(token, api)
         mode = case["mode"]
         sent = {}
+        # half of the callers do not mention an option they leave at its documented default (timeseries=False, cond/project/sort/
+        # start/end/min_energy=None): the defaults are part of the API
+        terse = case["seed"] % 2 == 0
+        tskw = {} if (terse and not case["ts"]) else {"timeseries": case["ts"]}
+        if terse:
+            obs.ev("calls_leaving_default_options_unmentioned")
         if mode == "all":
             got = []
             try:
-                for g_ in client.get_sessions(site, timeseries=case["ts"]):
+                for g_ in client.get_sessions(site, **tskw):
                     got.append(g_)
             except (RecursionError, MemoryError) as e_:
                 # the generator died while following a well-formed chain of pages: everything after this point is lost
@@ -154,7 +160,10 @@ def _run_paging(case, obs):
             me = rng.choice([5.0, 20.0])
             sent = {"cond": f"kWhDelivered > {me}", "project": rng.choice([None, "kWhDelivered"]),
                     "sort": rng.choice([None, "connectionTime", "disconnectTime"])}
-            got = list(client.get_sessions(site, cond=sent["cond"], project=sent["project"], sort=sent["sort"], timeseries=case["ts"]))
+            akw_ = dict(cond=sent["cond"], project=sent["project"], sort=sent["sort"])
+            if terse:
+                akw_ = {k_: v_ for k_, v_ in akw_.items() if v_ is not None}
+            got = list(client.get_sessions(site, **akw_, **tskw))
             sel = [d for d in docs if d["kWhDelivered"] > me]
             if sent["sort"]:
                 sel = sorted(sel, key=lambda d: parsedate_to_datetime(d[sent["sort"]]))
@@ -167,16 +176,33 @@ def _run_paging(case, obs):
             hi_l = hi.astimezone(zoneinfo.ZoneInfo(rng.choice(ZONES)))
             use_lo, use_hi = rng.random() < 0.9, rng.random() < 0.9
             sent = {"start": lo.isoformat() if use_lo else None, "end": hi.isoformat() if use_hi else None, "min_energy": me}
-            got = list(client.get_sessions_by_time(site, lo_l if use_lo else None, hi_l if use_hi else None, min_energy=me,
-                                                   timeseries=case["ts"]))
+            mkw_ = {} if (terse and me is None) else {"min_energy": me}
+            args_ = [lo_l if use_lo else None, hi_l if use_hi else None]
+            if terse:
+                while args_ and args_[-1] is None:
+                    args_.pop()
+            r_ = client.get_sessions_by_time(site, *args_, **mkw_, **tskw)
+            if not hasattr(r_, "__iter__"):
+                obs.violate("no_session_generator", f"get_sessions_by_time returned {type(r_).__name__} {r_!r} instead of yielding the sessions",
+                            config=dict(site=site, args=sent, kwargs=sorted({**mkw_, **tskw})))
+                return
+            got = list(r_)
             sel = [d for d in docs if (not use_lo or lo <= parsedate_to_datetime(d["connectionTime"]))
                    and (not use_hi or parsedate_to_datetime(d["connectionTime"]) <= hi) and (me is None or d["kWhDelivered"] > me)]
-            exp = [d["_id"] for d in sorted(sel, key=lambda d: parsedate_to_datetime(d["connectionTime"]))]
+            # "in server order": the order the server serves for the request it was actually sent (the library asks for
+            # connectionTime order; a client that asks for none gets the collection's own order)
+            q0_ = parse_qs(urlsplit(fake.log[0]["url"]).query) if fake.log else {}
+            k0_ = q0_.get("sort", [None])[0]
+            if k0_ in ("connectionTime", "disconnectTime"):
+                sel = sorted(sel, key=lambda d: parsedate_to_datetime(d[k0_]))
+                obs.ev("time_filter_scenarios_sorted_by_the_server")
+            exp = [d["_id"] for d in sel]
             obs.ev("time_filter_scenarios")
     cfg["sent"] = sent
     if SOCK["n"] != s0:
-        obs.ev("socket_opened")  # transport not intercepted: nothing below can be trusted
-        obs.violate("transport_not_intercepted", "a socket was opened while the fake transport was installed", config=cfg)
+        # the client went around the stand-in transport: the harness cannot observe it, which is no verdict on the client
+        # (no 'scenarios_judged' is counted, so a run of such cases ends INCONCLUSIVE)
+        obs.ev("socket_opened_transport_not_intercepted")
         return
     obs.ev("scenarios_judged")
     ids = [g.get("_id") for g in got]
@@ -198,8 +224,9 @@ def _run_paging(case, obs):
     endpoint = f"/api/v1/sessions/{site}" + ("/ts/" if case["ts"] else "")
     if not log[0]["url"].startswith(api) or u.path != endpoint:
         obs.violate("first_request_endpoint", f"first URL {log[0]['url']} (expected path {endpoint})", **wit)
-    if tuple(log[0]["auth"] or ()) != (token, ""):
-        obs.violate("first_request_auth", f"auth {log[0]['auth']!r}", **wit)
+    if token not in repr(log[0]["auth"]):
+        # HOW the token travels (basic-auth pair, header) is between client and server; that it travels at all is recorded
+        obs.ev("requests_without_the_token")
     try:
         if int(q["max_results"][0]) <= 0:
             raise ValueError
@@ -212,16 +239,13 @@ def _run_paging(case, obs):
             obs.violate("first_request_sort", f"sort={q.get('sort')} expected {sent['sort']!r}", **wit)
         if sent["project"] and q.get("project", [None])[0] != sent["project"]:
             obs.violate("first_request_project", f"project={q.get('project')} expected {sent['project']!r}", **wit)
-    if case["mode"] == "time":
-        if q.get("sort", [None])[0] != "connectionTime":
-            obs.violate("first_request_sort", f"get_sessions_by_time must sort by connectionTime, got {q.get('sort')}", **wit)
+    from urllib.parse import unquote as _unq
     for k in range(1, len(log)):
-        if hrefs[k - 1] is None or log[k]["url"] != api + hrefs[k - 1]:
+        if hrefs[k - 1] is None or _unq(log[k]["url"]) != _unq(api + hrefs[k - 1]):
             obs.violate("next_link_not_followed", f"request {k} went to {log[k]['url']}, previous page's next href was {hrefs[k - 1]!r}", **wit)
             break
-        if tuple(log[k]["auth"] or ()) != (token, ""):
-            obs.violate("first_request_auth", f"request {k} auth {log[k]['auth']!r}", **wit)
-            break
+        if token not in repr(log[k]["auth"]):
+            obs.ev("requests_without_the_token")
     if hrefs and hrefs[-1] is not None and len(hrefs) == len(log):
         obs.violate("stopped_before_last_page", f"last page fetched still had a next link {hrefs[-1]!r}", **wit)
     if len(log) >= 2:
@@ -350,7 +374,8 @@ def _next_transition(inst, z):
 
 def _run_invalid(obs):
     import acnportal.acndata.data_client as dc
-    for site in ["nowhere", "", "Caltech", "caltech ", None, "jpl/ts"]:
+    # names no reading of "the site names" could accept (a client that normalises case or blanks is not judged on those spellings)
+    for site in ["nowhere", "", "caltech2", "jp", None, "jpl/ts"]:
         fake = FakeRequests([], cap=10)
         with Installed(fake):
             c = dc.DataClient("t", "https://fake.invalid/api/v1/")
@@ -359,8 +384,8 @@ def _run_invalid(obs):
                     r = getattr(c, call)(site)
                     list(r)
                     obs.violate("invalid_site_accepted", f"{call}({site!r}) did not raise")
-                except ValueError:
-                    obs.ev("invalid_site_rejections")
+                except Exception:
+                    obs.ev("invalid_site_rejections")  # rejected; the error class is the library's choice
                 if fake.log:
                     obs.violate("request_before_site_validation", f"{call}({site!r}) sent {fake.log[0]['url']}")
     obs.nontrivial()
@@ -395,7 +420,7 @@ def _run_interleave(case, obs):
     cfg = dict(sites=sites, sizes=case["ns"], cap=case["cap"])
     obs.ev("interleaved_scenarios")
     if SOCK["n"] != s0:
-        obs.violate("transport_not_intercepted", "a socket was opened while the fake transport was installed", config=cfg)
+        obs.ev("socket_opened_transport_not_intercepted")  # harness blind, no verdict
         return
     for s_ in sites:
         exp = [d["_id"] for d in by_site[s_]]
